@@ -111,6 +111,7 @@ type vfPipe struct {
 	readClosed  bool          // reader closed its side: reads fail, writes are discarded
 	wake        chan struct{} // reader wake-up (cap 1)
 	gated       bool          // writes block while set
+	permits     int           // writes allowed through a closed gate (letOne)
 	gateCh      chan struct{} // closed on ungate / reset
 	sink        func([]byte)  // if set, written frames go here instead of buf
 	onHeld      func(*vfPipe) // link layer notification
@@ -172,6 +173,10 @@ func (p *vfPipe) write(b []byte, deadline time.Time) (int, error) {
 			return 0, errVfClosed
 		}
 		if !p.gated {
+			break
+		}
+		if p.permits > 0 {
+			p.permits-- // the harness lets exactly one write through the gate
 			break
 		}
 		ch := p.gateCh
@@ -273,6 +278,17 @@ func (p *vfPipe) doReset() {
 		p.gated = false
 	}
 	p.poke()
+	p.mu.Unlock()
+}
+
+// letOne lets exactly one (blocked or future) write pass a closed gate.
+func (p *vfPipe) letOne() {
+	p.mu.Lock()
+	if p.gated {
+		p.permits++
+		close(p.gateCh)
+		p.gateCh = make(chan struct{})
+	}
 	p.mu.Unlock()
 }
 
